@@ -68,6 +68,9 @@ OP = st.one_of(
     # a one-shot handler on objs[t].v that REMOVES a link (chosen among the live ones) when it is called - i.e. possibly in
     # the middle of a propagation that is walking that very link table
     st.tuples(st.just("arm_unlink"), I2, st.integers(0, 9)), st.tuples(st.just("arm_unlink"), I2, st.integers(0, 9)),
+    # a one-shot handler on objs[t].v that DROPS another object (its last reference) when called - a partner may then be
+    # collected while a propagation is walking over it
+    st.tuples(st.just("arm_drop"), I2, I2),
 ).map(list)
 
 
@@ -76,12 +79,16 @@ FANOUT = {
     "scalar": [["sync", 0, 1, ["v", "r"], True], ["sync", 0, 2, ["v", "v"], True]],
     "list": [["sync", 0, 1, ["xs", "zs"], True], ["sync", 0, 2, ["xs", "xs"], True]],
     "scalar-one-way": [["sync", 0, 1, ["v", "r"], False], ["sync", 0, 2, ["v", "w"], False]],
+    # two partners on objs[0].v; a handler of the FIRST partner drops the second object / removes the second link while
+    # objs[0] is still walking its partners
+    "drop-later-partner": [["sync", 0, 1, ["v", "v"], True], ["sync", 0, 2, ["v", "w"], True], ["arm_drop", 1, 2]],
+    "unlink-later-partner": [["sync", 0, 1, ["v", "v"], True], ["sync", 0, 2, ["v", "w"], True], ["arm_unlink", 1, 1]],
 }
 
 
 def strategy(tier):
     return st.fixed_dictionaries({"ops": st.lists(OP, min_size=2, max_size=25),
-                                  "prelude": st.sampled_from([None, None, "scalar", "list", "scalar-one-way"]),
+                                  "prelude": st.sampled_from([None, None, None, "scalar", "list", "scalar-one-way", "drop-later-partner", "unlink-later-partner"]),
                                   # how each successive sync_trait call is SPELLED: [omit the alias argument when it equals the
                                   # trait name, issue the removal of a mutual link from the partner's side]
                                   "spell": st.lists(st.tuples(st.booleans(), st.booleans()).map(list), min_size=6, max_size=6)})
@@ -227,7 +234,7 @@ def run(case, ctx):
         for dst in out_edges(key):
             poison(dst, seen)
 
-    armed = {"link": None, "fired": None}
+    armed = {"link": None, "fired": None, "drop": None, "dropped": None}
 
     def adopt(key, seen):
         """What a propagation delivered along a link that was being removed is unspecified: take reality as the new baseline."""
@@ -260,6 +267,19 @@ def run(case, ctx):
                     k = "sync"
                     interesting = True
                     ctx.label("resync")
+                if k == "arm_drop":
+                    t, j = op[1], op[2]
+                    if t == j or objs[t] is None or objs[j] is None or armed["drop"] is not None:
+                        continue
+                    armed["drop"] = j
+
+                    def one_shot_drop():
+                        if armed["drop"] is not None and armed["dropped"] is None:
+                            armed["dropped"] = armed["drop"]
+                            objs[armed["drop"]] = None
+                    objs[t].on_trait_change(one_shot_drop, "v")
+                    ctx.label("drop-handler-armed")
+                    continue
                 if k == "arm_unlink":
                     t = op[1]
                     if not links or objs[t] is None or armed["link"] is not None:
@@ -402,6 +422,24 @@ def run(case, ctx):
                 ctx.fail("terminate/recursion", "%s: RecursionError" % what)
             except Exception as e:
                 raised = e
+            if armed["dropped"] is not None:
+                # the armed handler ran during this step and dropped a (possibly linked) object
+                j_ = armed["dropped"]
+                armed["dropped"] = armed["drop"] = None
+                gc.collect()
+                links[:] = [l for l in links if l[0] != j_ and l[2] != j_]
+                for e in list(edges):
+                    if e[0] == j_ or e[2] == j_:
+                        edges.discard(e)
+                if armed["link"] is not None and j_ in (armed["link"][0], armed["link"][2]):
+                    armed["link"] = None
+                # (whatever was propagated THROUGH the dropped object in this step is unspecified: take reality as baseline)
+                for key_ in list(M):
+                    if objs[key_[0]] is not None:
+                        got_ = getattr(objs[key_[0]], key_[1])
+                        M[key_] = list(got_) if key_[1] in LISTS else got_
+                interesting = True
+                ctx.label("object-dropped-by-a-handler-during-a-change")
             if armed["fired"] is not None:
                 # the armed handler ran during this step and removed its link
                 i_, n_, j_, a_, mutual_ = armed["fired"]
